@@ -869,6 +869,37 @@ func (g *Gen) genParse(p *Prog) {
 			base = []int{0, 10}[g.intn(2)]
 		}
 		lit += fmt.Sprintf("p%s%d", sign, k)
+		if g.chance(0.25) {
+			// no binary exponent at all (or p+0): a plain integer in base 2, 8 or 16 whose WRITTEN digit count is at
+			// or below the precision while its decimal expansion is longer - it must still be rounded
+			nd := zp - g.intn(3)
+			if nd < 1 {
+				nd = 1
+			}
+			bb := []int{16, 16, 8, 2}[g.intn(4)]
+			set := map[int]string{2: "01", 8: "01234567", 16: "0123456789abcdefABCDEF"}[bb]
+			b := make([]byte, nd)
+			for i := range b {
+				b[i] = set[g.intn(len(set))]
+			}
+			if b[0] == '0' {
+				b[0] = '1'
+			}
+			if g.chance(0.3) {
+				for i := range b {
+					b[i] = set[len(set)-1] // all f / 7 / 1
+				}
+			}
+			lit = map[int]string{2: "0b", 8: "0o", 16: "0x"}[bb] + string(b)
+			base = 0
+			if g.chance(0.3) {
+				lit = string(b)
+				base = bb
+			}
+			if g.chance(0.2) {
+				lit += "p+0"
+			}
+		}
 		if g.chance(0.3) {
 			lit = "-" + lit
 		}
